@@ -273,45 +273,22 @@ def rule_raw_capacity(report, prog, rule='C01-R3'):
 def rule_partition(report, prog):
     n = 0
     # Type 3 read / write block batching
-    for fn, step in (('_read_ndef_data', "attributes['nbr']"), ('_write_ndef_data', "attributes['nbw']")):
+    # reader and writer folded over Nbr / Nbw values x message lengths with the tag commands modelled (rules/t3model.py): the block
+    # lists of the commands partition 1..ceil(len/16) in order with at most min(N, 15 | 13) blocks each, what is read back is the
+    # message cut to Ln, what is written is the message padded to the block size between the two attribute writes
+    from . import t3model
+    for fn, verdicts, grid in (('_read_ndef_data', t3model.read_verdicts, t3model.READ_GRID), ('_write_ndef_data', t3model.write_verdicts, t3model.WRITE_GRID)):
         f = prog.func('nfc.tag.tt3.Type3Tag.NDEF.' + fn)
-        loops = [l for l in walk_no_nested(f.node) if isinstance(l, ast.For) and norm(l.iter).startswith('range(1, last_block_number')]
         n += 1
-        if len(loops) != 1:
-            report.fail('C01-R4', key(f.qname, 'block batching loop'), f.loc(), 'block batching loop not found')
-            continue
-        lp = loops[0]
-        # the stride is the attribute value itself or a local bound once to it / to min(attribute, constant >= 1)
-        stride = norm(lp.iter.args[2]) if isinstance(lp.iter, ast.Call) and len(lp.iter.args) == 3 else None
-        src_ok = stride == step
-        if stride is not None and not src_ok and isinstance(lp.iter.args[2], ast.Name):
-            binds = [a for a in walk_no_nested(f.node) if isinstance(a, ast.Assign) and any(norm(t) == stride for t in a.targets)]
-            if len(binds) == 1:
-                v = binds[0].value
-                src_ok = norm(v) == step or (isinstance(v, ast.Call) and norm(v.func) == 'min' and len(v.args) == 2 and
-                                             sorted(norm(a) for a in v.args if norm(a) == step) == [step] and
-                                             any(isinstance(try_const(a), int) and try_const(a) >= 1 for a in v.args))
-        okk = src_ok and bool(find(lp, 'last_block = min(i + %s, last_block_number)' % stride))
-        if fn == '_write_ndef_data':
-            okk = okk and bool(find(lp, 'block_data = data[(i - 1) * 16:(last_block - 1) * 16]')) and \
-                bool(find(lp, 'self._tag.write_to_ndef_service(block_data, *range(i, last_block))'))
-        else:
-            okk = okk and bool(find(lp, 'block_list = range(i, last_block)')) and bool(find(lp, 'data += self.tag.read_from_ndef_service(*block_list)'))
-        report.check(okk, 'C01-R4', key(f.qname, 'blocks [i, min(i+N, last)) with stride N cover 1..last exactly once'), f.loc(lp),
-                     'Type 3 block batching no longer partitions the block range: %s' % norm(lp.iter))
-        lb = find(f.node, 'last_block_number = 1 + ($L + 15) // 16')
-        report.check(len(lb) == 1, 'C01-R4', key(f.qname, 'last block = 1 + ceil(len / 16)'), f.loc(), 'block count formula changed')
+        bad = verdicts(prog)
+        report.check(not bad, 'C01-R4', key(f.qname, 'blocks [i, min(i+N, last)) with stride N cover 1..last exactly once'), f.loc(),
+                     'Type 3 block batching no longer partitions the block range: %s' % '; '.join(bad[:2]), detail='%d grid points folded' % len(grid))
+        report.check(not bad, 'C01-R4', key(f.qname, 'last block = 1 + ceil(len / 16)'), f.loc(), 'block count formula changed: %s' % '; '.join(bad[:1]))
     f = prog.func('nfc.tag.tt3.Type3Tag.NDEF._write_ndef_data')
-    okk = bool(find(f.node, 'data += bytearray(-len(data) % 16)')) and bool(find(f.node, "attributes['ln'] = len(data)"))
-    cfg = cfg_of(f)
-    if okk:
-        a = cfg.node_of(find(f.node, "attributes['ln'] = len(data)")[0][0])
-        b = cfg.node_of(find(f.node, 'data += bytearray(-len(data) % 16)')[0][0])
-        okk = cfg.dominates(a, b)
-    report.check(okk, 'C01-R4', key(f.qname, 'Ln is the unpadded length, data padded to the block size afterwards'), f.loc(),
+    report.check(not t3model.write_verdicts(prog), 'C01-R4', key(f.qname, 'Ln is the unpadded length, data padded to the block size afterwards'), f.loc(),
                  'length / padding order changed')
     f = prog.func('nfc.tag.tt3.Type3Tag.NDEF._read_ndef_data')
-    report.check(bool(find(f.node, "data = data[0:attributes['ln']]")), 'C01-R4', key(f.qname, 'padding stripped to Ln'), f.loc(),
+    report.check(not t3model.read_verdicts(prog), 'C01-R4', key(f.qname, 'padding stripped to Ln'), f.loc(),
                  'read data is not cut to the announced length')
     # Type 4
     rd = prog.func('nfc.tag.tt4.Type4Tag.NDEF._read_ndef_data')
@@ -358,26 +335,53 @@ def rule_partition(report, prog):
 def rule_attr(report, prog):
     r = prog.func('nfc.tag.tt3.Type3Tag.NDEF._read_attribute_data')
     w = prog.func('nfc.tag.tt3.Type3Tag.NDEF._write_attribute_data')
-    okk = any(norm(e) == "sum(data[0:14]) != unpack('>H', data[14:16])[0]" for e in ast.walk(r.node) if isinstance(e, ast.Compare)) and \
-        bool(find(w.node, "attribute_data[14:16] = pack('>H', sum(attribute_data[0:14]))"))
+    # field offsets: writer and reader folded (checker's own evaluator) with the block commands modelled -- the writer produces the
+    # attribute block of the specification and the reader gets the same attributes back from it
+    from ..q import fold_block, NotConst
+    import struct as _st
+
+    def body_of(fn):
+        b = list(fn.node.body)
+        return b[1:] if b and isinstance(b[0], ast.Expr) and isinstance(b[0].value, ast.Constant) else b
+    funcs = {'pack': _st.pack, 'unpack': _st.unpack} if any(
+        isinstance(x, ast.ImportFrom) and x.module == 'struct' and {a.name for a in x.names} >= {'pack', 'unpack'} for x in prog.modules['nfc.tag.tt3'].tree.body) else {}
+    okk = True
+    reads = writes = None
+    for attrs in ({'ver': 0x10, 'nbr': 4, 'nbw': 1, 'nmaxb': 0x0123, 'writef': 0, 'rwflag': 1, 'ln': 0x010203},
+                  {'ver': 0x11, 'nbr': 15, 'nbw': 13, 'nmaxb': 0xFFFE, 'writef': 0x0F, 'rwflag': 0, 'ln': 0xFEDCBA},
+                  {'ver': 0x10, 'nbr': 0, 'nbw': 0, 'nmaxb': 0, 'writef': 0, 'rwflag': 0, 'ln': 0}):
+        sent = []
+        env = {'attributes': dict(attrs), '__funcs__': funcs,
+               '__calls__': {'self._tag.write_to_ndef_service': lambda d, *blocks: sent.append((bytes(d), blocks))}}
+        try:
+            fold_block(body_of(w), env)
+        except (NotConst, IndexError, TypeError, ValueError, KeyError) as e:
+            okk, writes = False, 'writer cannot be folded: %s' % e
+            break
+        spec = bytes([attrs['ver'], attrs['nbr'], attrs['nbw']]) + _st.pack('>H', attrs['nmaxb']) + bytes(4) + \
+            bytes([attrs['writef'], attrs['rwflag']]) + _st.pack('>I', attrs['ln'])[1:]
+        spec += _st.pack('>H', sum(spec))
+        if sent != [(spec, (0,))]:
+            okk, writes = False, 'writer sends %s, the attribute block for %r is %s' % ([(d.hex(), b) for d, b in sent], attrs, spec.hex())
+            break
+        for blk, want in ((spec, attrs), (spec[:5] + b'\x01' + spec[6:], None)):
+            env = {'__funcs__': funcs, '__calls__': {'self._tag.read_from_ndef_service': lambda *blocks: bytearray(blk) if blocks == (0,) else None}}
+            try:
+                r_ = fold_block(body_of(r), env)
+            except (NotConst, IndexError, TypeError, ValueError, KeyError) as e:
+                okk, reads = False, 'reader cannot be folded: %s' % e
+                break
+            if r_ != ('return', want):
+                okk, reads = False, 'reader gets %r from %s' % (r_[1], blk.hex())
+                break
+            if want is not None and (env.get('self._capacity'), env.get('self._writeable'), env.get('self._readable')) != (
+                    attrs['nmaxb'] * 16, attrs['rwflag'] != 0 and attrs['nbw'] > 0, attrs['writef'] == 0 and attrs['nbr'] > 0):
+                okk, reads = False, 'reader derives capacity/writeable/readable %r' % ((env.get('self._capacity'), env.get('self._writeable'), env.get('self._readable')),)
+                break
+        if not okk:
+            break
     report.check(okk, 'C01-R5', key('nfc.tag.tt3', 'attribute checksum: sum of bytes 0..13, big endian at 14..15, reader == writer'), r.loc(),
-                 'Type 3 attribute checksum computation differs between reader and writer')
-    # field offsets
-    reads = {}
-    for st in walk_no_nested(r.node):
-        b = match(st, "$T = unpack($F, data[$A:$B])")
-        if b is not None and isinstance(b['T'], ast.Tuple):
-            reads[tuple(norm(x) for x in b['T'].elts)] = (try_const(b['F']), try_const(b['A']), try_const(b['B']))
-    ln = find(r.node, "length = unpack('>I', b'\\x00' + data[11:14])[0]")
-    want_r = {('ver', 'nbr', 'nbw', 'nmaxb'): ('>BBBH', 0, 5), ('writef', 'rwflag'): ('>BB', 9, 11)}
-    writes = {}
-    for st in walk_no_nested(w.node):
-        b = match(st, "attribute_data[$I] = attributes[$K]")
-        if b is not None:
-            writes[try_const(b['K'])] = norm(b['I'])
-    okk = reads == want_r and len(ln) == 1 and writes == {'ver': '0', 'nbr': '1', 'nbw': '2', 'writef': '9', 'rwflag': '10'} and \
-        bool(find(w.node, "attribute_data[3:5] = pack('>H', attributes['nmaxb'])")) and \
-        bool(find(w.node, "attribute_data[11:14] = pack('>I', attributes['ln'])[1:4]"))
+                 'Type 3 attribute checksum / layout differs between reader and writer: %s' % (reads or writes))
     report.check(okk, 'C01-R5', key('nfc.tag.tt3', 'attribute block field offsets: reader == writer'), w.loc(),
                  'attribute block layout differs: reader %r writer %r' % (reads, writes))
     okk = bool(find(r.node, 'self._capacity = nmaxb * 16'))
